@@ -19,7 +19,7 @@ RULE = ("Histories of solve() calls on three long-lived instances (default AtomB
 ASSUMPTIONS = ["single-threaded histories", "exception messages are not compared (they embed token reprs), only the type"]
 NT_FLOOR = 0.15
 
-NAMES = ["foo", "bar", "2", "3", "10", "0.5"]
+NAMES = ["foo", "bar", "2", "3", "10", "0.5", "rate", "2e-3", "1.5e+2", "size"]
 WORDS = ["limit", "ab", "c", "100 km/s", "x y", "50000000000 km/s", "z"]
 
 
@@ -27,7 +27,12 @@ WORDS = ["limit", "ab", "c", "100 km/s", "x y", "50000000000 km/s", "z"]
 def default_expr(draw):
     t = draw(E.expr(depth=1, top=draw(st.sampled_from(["add", "add", "cmp", "or"]))))
     toks = [list(x) for x in E.tokens(t)]
-    fail = draw(st.sampled_from([None, None, "atom", "open", "operand", "narg"]))
+    fail = draw(st.sampled_from([None, None, "atom", "open", "operand", "narg", "domain"]))
+    if fail == "domain":
+        # outside the domain of log / sqrt: numpy answers -inf / nan (no exception); nothing may stay behind
+        text = draw(st.sampled_from(["2 * log(3-3) + 1", "sqrt(0 - 4)", "log10(0) * 2", "1 + sqrt(2 - 3)", "sqrt(4)/(sqrt(4)-2)",
+                                     "(sqrt(4)-2)/(2-sqrt(4))"]))
+        return {"cfg": "default", "text": text, "fail": None}
     if fail == "atom":
         idx = [i for i, (_x, g) in enumerate(toks) if g == "num"]
         i = idx[draw(st.integers(0, len(idx) - 1))]
@@ -65,7 +70,8 @@ def lookup_expr(draw):
         toks.insert(draw(st.integers(0, len(toks))), "(")
     elif fail == "operand":
         toks.append(draw(st.sampled_from(["*", "/", "+"])))
-    return {"cfg": "lookup", "text": " ".join(toks), "fail": fail}
+    # blank-separated or written tight (rate+1, 2e-3*foo)
+    return {"cfg": "lookup", "text": (" " if draw(st.booleans()) else "").join(toks), "fail": fail}
 
 
 @st.composite
@@ -119,7 +125,11 @@ def deep_fail(draw):
     return {"cfg": cfg, "text": text, "fail": "deep" if bad else None}
 
 
-call = st.one_of(default_expr(), default_expr(), lookup_expr(), string_expr(), inplace_expr(), deep_fail())
+# names ending in e/E next to a sign, and exponent-notation literals, written without blanks
+lookup_tight = st.sampled_from(["rate+foo", "size+2", "2e-3*foo", "1.5e+2+bar", "rate+rate", "2*(size+1e-3)", "foo*2.5e-3+rate",
+                                "3*rate+size"]).map(lambda t: {"cfg": "lookup", "text": t, "fail": None})
+
+call = st.one_of(default_expr(), default_expr(), lookup_expr(), string_expr(), inplace_expr(), deep_fail(), lookup_tight)
 
 
 @st.composite
@@ -156,6 +166,10 @@ def make(cfg):
                         value = 3.0
                     elif value == "bar":
                         value = 4.0
+                    elif value == "rate":
+                        value = 5.0
+                    elif value == "size":
+                        value = 6.0
                     else:
                         value = float(value)
                 self.value = value
@@ -199,9 +213,9 @@ def make(cfg):
 
 
 def outcome(solver, text):
+    # no np.errstate wrapper here: a wrapper would silently undo a solver that leaves numpy's error handling changed
     try:
-        with np.errstate(all="ignore"):
-            r = solver.solve(text)
+        r = solver.solve(text)
     except Exception as e:
         return ("raise", type(e).__name__)
     if r is None:
@@ -232,12 +246,28 @@ def check(case):
     live = {}
     failed_before = {}
     nt = False
+    err0 = np.geterr()
+    try:
+        return _check(case, v, live, failed_before, nt, err0)
+    finally:
+        np.seterr(**err0)
+
+
+def _check(case, v, live, failed_before, nt, err0):
+    # what a fresh instance answers, asked before anything else happened in this case (process-wide state included)
+    pristine = [outcome(make(c["cfg"]), c["text"]) for c in case["calls"]]
     for i, c in enumerate(case["calls"]):
         cfg = c["cfg"]
         if cfg not in live:
             live[cfg] = make(cfg)
         got = outcome(live[cfg], c["text"])
+        if np.geterr() != err0:
+            return v.fail("global-state", f"call {i} solve({c['text']!r}) left numpy's error handling at {np.geterr()} "
+                                          f"(was {err0})")
         ref = outcome(make(cfg), c["text"])
+        if not same(ref, pristine[i]):
+            return v.fail("history-dependent", f"call {i}: a FRESH {cfg} instance answers solve({c['text']!r}) -> {ref!r} "
+                                               f"now, but {pristine[i]!r} before the earlier calls of this history")
         if not same(got, ref):
             prev = [x["text"] for x in case["calls"][:i] if x["cfg"] == cfg]
             return v.fail("history-dependent", f"call {i} solve({c['text']!r}) on the reused {cfg} instance -> {got!r}, "
